@@ -165,6 +165,17 @@ def run(ctx):
         ev += 1
         if not (np.allclose(f, np.sqrt(a), rtol=1e-15) and np.allclose(b, a, rtol=1e-14) and np.allclose(c2, a, rtol=1e-14)):
             bad("square-root axis transform is not the square root / not inverted by its inverse", [float(x) for x in a[:5]], [float(x) for x in f[:5]])
+    # every numeric container the transform may be handed: narrow integer dtypes, float32, lists, tuples
+    base = np.array([0, 1, 2, 3, 5, 10, 50, 100, 120])
+    for conv in (np.int8, np.uint8, np.int16, np.uint16, np.int32, np.int64, np.float32, np.float64, list, tuple):
+        a = conv(base.tolist()) if conv in (list, tuple) else base.astype(conv)
+        f = np.asarray(tr.transform_non_affine(a), float)
+        b = np.asarray(inv.transform(tr.transform_non_affine(a)), float)
+        ev += 1
+        rt = 1e-6 if conv is np.float32 else 1e-13
+        if not (np.allclose(f, np.sqrt(base.astype(float)), rtol=rt, atol=0) and np.allclose(b, base.astype(float), rtol=rt, atol=0)):
+            bad("square-root axis transform is not the (double-precision) square root / round trip fails for this input type",
+                dict(input_type=getattr(conv, "__name__", str(conv)), values=base.tolist()), dict(transform=[float(x) for x in f], round_trip=[float(x) for x in b]))
     # ---------------- model <-> implementation
     res_m = coq_model(ctx, items)
     if res_m is not None:
